@@ -63,4 +63,17 @@ def make_private (object_name : Str) : Str :=
 def coerce_response_name (s : Str) : Str :=
   (replace s ['$', 'r', 'e', 's', 'p'] (['r', 'e', 's', 'p', 'o', 'n', 's', 'e'] : Str))
 
+-- gapic/utils/case.py — to_camel_case
+def to_camel_case (s : Str) : Str :=
+  let items : List Str := (reSplit (.cls false [.ch '_', .ch '-']) (to_snake_case s))
+  ((lower (head0 items)) ++ (join ([] : Str) (((slice items (some (1 : Int)) none)).map fun x_ => (capitalize x_))))
+
+-- gapic/utils/uri_conv.py — convert_uri_fieldnames._fix_name_segment
+def fix_name_segment (name_seg : Str) : Str :=
+  (if (strIn name_seg (GapicModel.Pinned.reservedNames.map String.toList)) then (name_seg ++ (['_'] : Str)) else name_seg)
+
+-- gapic/utils/uri_conv.py — convert_uri_fieldnames._fix_field_path
+def fix_field_path (field_path : Str) : Str :=
+  (join (['.'] : Str) (((split field_path ['.'])).map fun name_seg_ => (fix_name_segment name_seg_)))
+
 end GapicModel.Pinned.Funcs
